@@ -477,6 +477,22 @@ S["async_in_group"] = dict(
           T("M1", 1, group="g", **{"async": {"0": [("set", "A.e", "mi")], "1": [("set", "A.e", "mi")]}})],
     conns=[dict(src="A", dst="M1", sattr="po", dattr="mi", **{"async": True})])
 
+# two routes between one pair whose accumulated delays tie in their numbers but leave different
+# groups (direct inside the inner group, detour through the enclosing group); and a weak direct
+# connection next to a delay-free two-hop path inside one group
+S["nested_detour"] = dict(
+    until=3, groups={"g": None, "h": "g"}, max_loop=4,
+    sims=[E("Cc", group="g", emit_default=0), T("D", 2, group="h"), E("A", group="h", emit_default=0),
+          E("B", group="h")],
+    conns=[C("D", "A", "po", "ti", weak=True), C("D", "B", "po", "ti2", weak=True),
+           C("A", "B", "eo", "ti"), C("A", "Cc", "eo", "ti"), C("Cc", "B", "eo", "ti2")])
+S["weak_direct_plus_plain_path"] = dict(
+    until=3, groups=G1, max_loop=4,
+    sims=[T("D", 2, group="g"), E("A", group="g", emit_default=0), E("X", group="g", emit_default=0),
+          E("B", group="g")],
+    conns=[C("D", "A", "po", "ti"), C("D", "B", "po", "ti2", weak=True),
+           C("A", "B", "eo", "ti", weak=True), C("A", "X", "eo", "ti"), C("X", "B", "eo", "ti2")])
+
 # set_initial_event called twice for one simulator ("an initial step": the last call counts)
 S["two_initial_events_desc"] = dict(
     until=5, sims=[E("A", init_event=[3, 1], next=[None], emit_default=0), E("B")],
